@@ -105,6 +105,15 @@ FirstMatch(rules, i, input, ctx) ==
 ErrSet(c) == {S(c, "ErrorEquals").a[i].s : i \in 1..Len(S(c, "ErrorEquals").a)}
 CatcherList(st) == IF HasKey(st, "Catch") THEN [i \in 1..Len(S(st, "Catch").a) |-> [errs |-> ErrSet(S(st, "Catch").a[i]), next |-> Str(S(st, "Catch").a[i], "Next")]] ELSE <<>>
 ErrorOutput(e) == JObj(<<"Error", "Cause">>, <<JStr(e), JStr("<cause>")>>)
+(* would some retrier of st re-run the state on error e?  (the interpreter itself does not re-run: the task
+   behaviours are constant, so a retry changes nothing in what the States Language prescribes -- but where the
+   retry happens matters for the known protocol findings, see Raise) *)
+WouldRetry(st, e) ==
+    /\ HasKey(st, "Retry") /\ e \notin Unrecoverable
+    /\ \E i \in 1..Len(S(st, "Retry").a) :
+          LET r == S(st, "Retry").a[i] IN
+          /\ (e \in ErrSet(r) \/ ErrSet(r) = {"States.ALL"} \/ "States.TaskFailed" \in ErrSet(r))
+          /\ (~HasKey(r, "MaxAttempts") \/ S(r, "MaxAttempts").n > 0)
 
 (* ---- the interpreter ------------------------------------------------------------------ *)
 StateOf(states, name) == S(states, name)
@@ -130,9 +139,11 @@ RunFrom(m, name, data, ctx, tasks, fuelTr) ==
 (* after a state's work: ResultPath on the raw input, OutputPath, then Next/End *)
 Finish(m, st, raw, result, ctx, tasks, fuelTr, withResultPath) ==
     LET placed == IF withResultPath THEN ResultValue(raw, FieldPath(st, "ResultPath", "root"), result) ELSE result
-    IN IF IsFail(placed) THEN [k |-> "err", e |-> "States.ResultPathMatchFailure", v |-> JNull]
+        (* tm: what the known findings are keyed on, seen in the result and in the value OutputPath is applied to *)
+        tm == Mark(IF IsFail(placed) THEN {} ELSE Mark({}, placed), result)
+    IN IF IsFail(placed) THEN [k |-> "err", e |-> "States.ResultPathMatchFailure", v |-> JNull, tm |-> tm]
        ELSE LET out == SelectR(placed, ctx, FieldPath(st, "OutputPath", "root"))
-            IN IF ~out.ok THEN [k |-> "err", e |-> out.e, v |-> JNull] ELSE [k |-> "ok", e |-> "", v |-> out.v]
+            IN IF ~out.ok THEN [k |-> "err", e |-> out.e, v |-> JNull, tm |-> tm] ELSE [k |-> "ok", e |-> "", v |-> out.v, tm |-> tm]
 
 Continue(m, st, v, ctx, tasks, fuelTr) ==
     IF Truthy(st, "End") THEN Done("SUCCEEDED", v, "", FALSE, Mark(fuelTr[2], v))
@@ -143,12 +154,17 @@ Continue(m, st, v, ctx, tasks, fuelTr) ==
 Raise(m, st, raw, e, ctx, tasks, fuelTr) ==
     LET t == Str(st, "Type")
         c == IF t \in {"Task", "Parallel", "Map"} THEN CatchDecision(CatcherList(st), e) ELSE [act |-> "fail", idx |-> 0]
-    IN IF c.act = "open" THEN Done("", JNull, "", TRUE, fuelTr[2])
-       ELSE IF c.act = "fail" THEN Done("FAILED", JNull, e, FALSE, fuelTr[2])
+        fan == t \in {"Parallel", "Map"}
+        (* facts the known protocol findings are keyed on: a retry taken by a state ("retried"; inside a fan-out it
+           becomes "retry-in-fanout", see Parallel/Map), a retried fan-out, a fan-out failure taken by its own Catch *)
+        tr0 == fuelTr[2] \cup (IF t \in {"Task", "Parallel", "Map"} /\ WouldRetry(st, e) THEN (IF fan THEN {"retried", "retry-in-fanout"} ELSE {"retried"}) ELSE {})
+    IN IF c.act = "open" THEN Done("", JNull, "", TRUE, tr0)
+       ELSE IF c.act = "fail" THEN Done("FAILED", JNull, e, FALSE, tr0)
        ELSE LET cat == S(st, "Catch").a[c.idx]
                 placed == ResultValue(raw, FieldPath(cat, "ResultPath", "root"), ErrorOutput(e))
-            IN IF IsFail(placed) THEN Done("FAILED", JNull, "States.ResultPathMatchFailure", FALSE, fuelTr[2])
-               ELSE RunFrom(m, Str(cat, "Next"), placed, ctx, tasks, <<fuelTr[1], fuelTr[2] \cup {"caught"}>>)
+                tr1 == tr0 \cup {"caught"} \cup (IF fan THEN {"fanout-caught"} ELSE {})
+            IN IF IsFail(placed) THEN Done("FAILED", JNull, "States.ResultPathMatchFailure", FALSE, tr1)
+               ELSE RunFrom(m, Str(cat, "Next"), placed, ctx, tasks, <<fuelTr[1], tr1>>)
 
 TaskResult(tasks, fn, payload) ==
     IF ~HasKey(tasks, fn) THEN Ok(JObj(<<"fn", "in">>, <<JStr(fn), payload>>))
@@ -177,10 +193,10 @@ RunState(m, name, raw, ctx, tasks, fuelTr) ==
            IF ~par.ok THEN Raise(m, st, raw, par.e, ctx, tasks, ft)
            ELSE LET res == IF HasKey(st, "Result") THEN S(st, "Result") ELSE par.v
                     f == Finish(m, st, raw, res, ctx, tasks, ft, TRUE)
-                IN IF f.k = "err" THEN Raise(m, st, raw, f.e, ctx, tasks, ft) ELSE Continue(m, st, f.v, ctx, tasks, <<ft[1], Mark(trI, res)>>)
+                IN IF f.k = "err" THEN Raise(m, st, raw, f.e, ctx, tasks, <<ft[1], ft[2] \cup f.tm>>) ELSE Continue(m, st, f.v, ctx, tasks, <<ft[1], Mark(trI, res)>>)
       [] t = "Wait" ->
            LET f == Finish(m, st, raw, inp.v, ctx, tasks, ft, FALSE)
-           IN IF f.k = "err" THEN Raise(m, st, raw, f.e, ctx, tasks, ft) ELSE Continue(m, st, f.v, ctx, tasks, ft)
+           IN IF f.k = "err" THEN Raise(m, st, raw, f.e, ctx, tasks, <<ft[1], ft[2] \cup f.tm>>) ELSE Continue(m, st, f.v, ctx, tasks, ft)
       [] t = "Choice" ->
            LET pick == FirstMatch(S(st, "Choices").a, 1, inp.v, ctx)
                out == SelectR(inp.v, ctx, FieldPath(st, "OutputPath", "root"))
@@ -197,7 +213,7 @@ RunState(m, name, raw, ctx, tasks, fuelTr) ==
                 ELSE LET sel == ApplyTemplate(st, "ResultSelector", r.v, ctx) IN
                      IF ~sel.ok THEN Raise(m, st, raw, sel.e, ctx, tasks, ft)
                      ELSE LET f == Finish(m, st, raw, sel.v, ctx, tasks, ft, TRUE)
-                          IN IF f.k = "err" THEN Raise(m, st, raw, f.e, ctx, tasks, ft)
+                          IN IF f.k = "err" THEN Raise(m, st, raw, f.e, ctx, tasks, <<ft[1], ft[2] \cup f.tm>>)
                              ELSE Continue(m, st, f.v, ctx, tasks, <<ft[1], Mark(Mark(trI, r.v), sel.v)>>)
       [] t = "Parallel" ->
            LET par == ApplyTemplate(st, "Parameters", inp.v, ctx) IN
@@ -205,15 +221,17 @@ RunState(m, name, raw, ctx, tasks, fuelTr) ==
            ELSE LET bs == S(st, "Branches").a
                     rs == [i \in 1..Len(bs) |-> RunFrom(bs[i], Str(bs[i], "StartAt"), par.v, ctx, tasks, <<ft[1], {}>>)]
                     failed == {i \in 1..Len(rs) : rs[i].status = "FAILED"}
-                    tr2 == trI \cup UNION {rs[i].trail : i \in 1..Len(rs)}
+                    tr2 == LET u == UNION {rs[i].trail : i \in 1..Len(rs)} IN trI \cup u \cup (IF "retried" \in u THEN {"retry-in-fanout"} ELSE {})
                 IN IF \E i \in 1..Len(rs) : rs[i].open THEN Done("", JNull, "", TRUE, tr2)
                    ELSE IF Cardinality(failed) > 1 THEN Done("", JNull, "", TRUE, tr2)     \* which branch fails first is schedule-dependent
-                   ELSE IF failed # {} THEN Raise(m, st, raw, rs[CHOOSE i \in failed : TRUE].err, ctx, tasks, <<ft[1], tr2>>)
+                   (* a fan-out that fails while it has other branches: territory of F18 (their deferred handlers still run) *)
+                   ELSE IF failed # {} THEN Raise(m, st, raw, rs[CHOOSE i \in failed : TRUE].err, ctx, tasks,
+                                                 <<ft[1], tr2 \cup (IF Len(rs) > 1 THEN {"fanout-failed-with-siblings"} ELSE {})>>)
                    ELSE LET res == JArr([i \in 1..Len(rs) |-> rs[i].out])
                             sel == ApplyTemplate(st, "ResultSelector", res, ctx)
                         IN IF ~sel.ok THEN Raise(m, st, raw, sel.e, ctx, tasks, <<ft[1], tr2>>)
                            ELSE LET f == Finish(m, st, raw, sel.v, ctx, tasks, ft, TRUE)
-                                IN IF f.k = "err" THEN Raise(m, st, raw, f.e, ctx, tasks, <<ft[1], tr2>>)
+                                IN IF f.k = "err" THEN Raise(m, st, raw, f.e, ctx, tasks, <<ft[1], tr2 \cup f.tm>>)
                                    ELSE Continue(m, st, f.v, ctx, tasks, <<ft[1], tr2 \cup {"fanout"}>>)
       [] t = "Map" ->
            LET itemsR == SelectR(inp.v, ctx, FieldPath(st, "ItemsPath", "root")) IN
@@ -227,15 +245,16 @@ RunState(m, name, raw, ctx, tasks, fuelTr) ==
                 IN IF badSel # {} THEN Raise(m, st, raw, inFor(CHOOSE i \in badSel : \A j \in badSel : i <= j).e, ctx, tasks, ft)
                    ELSE LET rs == [i \in 1..Len(items) |-> RunFrom(proc, Str(proc, "StartAt"), inFor(i).v, ctx, tasks, <<ft[1], {}>>)]
                             failed == {i \in 1..Len(rs) : rs[i].status = "FAILED"}
-                            tr2 == trI \cup UNION {rs[i].trail : i \in 1..Len(rs)}
+                            tr2 == LET u == UNION {rs[i].trail : i \in 1..Len(rs)} IN trI \cup u \cup (IF "retried" \in u THEN {"retry-in-fanout"} ELSE {})
                         IN IF \E i \in 1..Len(rs) : rs[i].open THEN Done("", JNull, "", TRUE, tr2)
                            ELSE IF Cardinality({rs[i].err : i \in failed}) > 1 THEN Done("", JNull, "", TRUE, tr2)
-                           ELSE IF failed # {} THEN Raise(m, st, raw, rs[CHOOSE i \in failed : TRUE].err, ctx, tasks, <<ft[1], tr2>>)
+                           ELSE IF failed # {} THEN Raise(m, st, raw, rs[CHOOSE i \in failed : TRUE].err, ctx, tasks,
+                                                         <<ft[1], tr2 \cup (IF Len(rs) > 1 THEN {"fanout-failed-with-siblings"} ELSE {})>>)
                            ELSE LET res == JArr([i \in 1..Len(rs) |-> rs[i].out])
                                     sel == ApplyTemplate(st, "ResultSelector", res, ctx)
                                 IN IF ~sel.ok THEN Raise(m, st, raw, sel.e, ctx, tasks, <<ft[1], tr2>>)
                                    ELSE LET f == Finish(m, st, raw, sel.v, ctx, tasks, ft, TRUE)
-                                        IN IF f.k = "err" THEN Raise(m, st, raw, f.e, ctx, tasks, <<ft[1], tr2>>)
+                                        IN IF f.k = "err" THEN Raise(m, st, raw, f.e, ctx, tasks, <<ft[1], tr2 \cup f.tm>>)
                                            ELSE Continue(m, st, f.v, ctx, tasks, <<ft[1], tr2 \cup {"fanout"}>>)
       [] OTHER -> Done("", JNull, "", TRUE, trI)
 
